@@ -1,10 +1,10 @@
-(* Tie/Hex.v — the generated translation of pkg/ecosystem/hex (Gen/Code/Hex.v) against the model
-   (Eco/Hex).  comparePreRelease has a loop and is outside the fragment: Version.Compare is tied
-   generically in it. *)
+(* Tie/Hex.v — VERSION level: the generated translation of pkg/ecosystem/hex
+   (Gen/Code/Hex.v) against the model (Eco/Hex/Version).  comparePreRelease (loop) is outside the
+   translated fragment: Compare is tied generically in it.  The range-level ties are in
+   Tie/HexRange.v (which depends on this file, never the other way round). *)
 From Coq Require Import ZArith List Bool Lia.
 From Verif.Base Require Import Bytes GoNum GoOps Ord.
-From Verif.Eco Require Import RangeCore.
-From Verif.Eco.Hex Require Version Range.
+From Verif.Eco.Hex Require Version.
 From Verif.Gen.Code Require Hex.
 From Verif.Tie Require Import Tactics.
 Import ListNotations.
@@ -35,28 +35,5 @@ Section Compare.
   Theorem tie_hex_compare : forall a b,
     G.Version_Compare comparePreRelease a b = Z_of_cmp (M.cmp_core (abs a) (abs b)).
   Proof. tie_solve_with comparePreRelease_model. Qed.
-
-  (* range: the operator switch, for any Compare (it stays folded) *)
-  Local Opaque G.Version_Compare.
-  Theorem tie_hex_matches : forall c v,
-    G.constraint_matches comparePreRelease c v =
-    sat (sem5 (G.constraint_operator c)) (cmp_of_Z (G.Version_Compare comparePreRelease v (G.constraint_version c))).
-  Proof. tie_solve. Qed.
-
-  Corollary tie_hex_matches_model : forall c v,
-    G.constraint_matches comparePreRelease c v =
-    sat (sem5 (G.constraint_operator c)) (M.cmp_core (abs v) (abs (G.constraint_version c))).
-  Proof. intros. rewrite tie_hex_matches, tie_hex_compare, cmp_of_Z_of_cmp. reflexivity. Qed.
-
-  Theorem tie_hex_contains : forall r v,
-    G.VersionRange_Contains comparePreRelease r v =
-    forallb (fun c => sat (sem5 (G.constraint_operator c)) (M.cmp_core (abs v) (abs (G.constraint_version c))))
-            (G.VersionRange_constraints r).
-  Proof.
-    intros. unfold G.VersionRange_Contains. apply forallb_ext_in. intros c _. apply tie_hex_matches_model.
-  Qed.
 End Compare.
 Print Assumptions tie_hex_compare.
-Print Assumptions tie_hex_matches.
-Print Assumptions tie_hex_matches_model.
-Print Assumptions tie_hex_contains.
